@@ -100,7 +100,10 @@ class Checker:
         counts = {}
         for o in self.obs:
             counts[o.rule] = counts.get(o.rule, 0) + 1
-        low = [(r, counts.get(r, 0), n) for r, n in self.floors.items() if counts.get(r, 0) < n]
+        # A floor guards against a rule that silently matches (almost) nothing.  A behaviour-preserving restructuring
+        # can merge sites (two unrolled statements rolled into a loop, a tail folded into the loop), so a run only
+        # fails when fewer than half of the instances confirmed by hand are left (and always when none is left).
+        low = [(r, counts.get(r, 0), n) for r, n in self.floors.items() if n > 0 and counts.get(r, 0) < max(1, (n + 1) // 2)]
         return low
 
 
